@@ -1,6 +1,171 @@
-(** C01 — pinned statements. *)
-From TU Require Import Base C01_Model C01_Proofs.
+(** C01 — pinned statements. Nothing but statements, [exact], and assumption audits.
+    Strings are lists of code points; [scalars s] says every element is a Unicode scalar value
+    (what a Rust [String] holds). [b] is a built tokenizer ([byte_base]/[char_base] = the constructor,
+    [None] = constructor error). *)
+From TU Require Import Base C01_Model C01_Proofs C01_Check.
+From Coq Require Import Permutation.
+Open Scope N_scope.
 
-Theorem cons_reg_str : forall c segs, concat (map seg_str (cons_reg c segs)) = c :: concat (map seg_str segs).
-Proof. exact C01_Proofs.cons_reg_str. Qed.
-Print Assumptions cons_reg_str.
+(** [String::from_utf8] after UTF-8 encoding is the identity (lossless encoding of every scalar string). *)
+Theorem utf8_roundtrip : forall s, scalars s = true -> utf8_decode (utf8s s) = Some s.
+Proof. exact utf8_decode_utf8s. Qed.
+Print Assumptions utf8_roundtrip.
+
+(** Every UTF-8 byte is an id below 256. *)
+Theorem utf8_bytes : forall s, scalars s = true -> Forall (fun b => b < 256) (utf8s s).
+Proof. exact utf8s_lt256. Qed.
+Print Assumptions utf8_bytes.
+
+(** The special-token scan partitions the text, for EVERY alternation order [toks] (the order comes
+    from a hash map in the code): concatenating the segments gives the text back, every special
+    segment is one of the tokens, regular segments are non-empty and never adjacent. *)
+Theorem scan_partition : forall toks s,
+  Forall (fun t => t <> []) toks ->
+  concat (map seg_str (scan toks s 0)) = s
+  /\ Forall (seg_in toks) (scan toks s 0)
+  /\ no_adjacent_reg (scan toks s 0).
+Proof.
+  intros toks s H. split; [exact (scan_skipn toks H s 0)|].
+  split; [apply scan_seg_in|apply scan_no_adjacent].
+Qed.
+Print Assumptions scan_partition.
+
+(** The scan is the leftmost-first split: a special segment is the first alternative that matches
+    where it starts; no alternative matches at any position inside a regular segment. *)
+Theorem scan_leftmost : forall toks s,
+  Forall (fun t => t <> []) toks -> leftmost toks (scan toks s 0).
+Proof. intros toks s H. exact (scan_leftmost_l toks H s 0). Qed.
+Print Assumptions scan_leftmost.
+
+(** For prefix-free token sets the scan does not depend on the alternation order. *)
+Theorem scan_order_independent : forall toks toks' s,
+  PrefixFree toks -> Permutation toks toks' -> scan toks' s 0 = scan toks s 0.
+Proof. intros toks toks' s H1 H2. exact (scan_perm_l toks toks' H1 H2 s 0). Qed.
+Print Assumptions scan_order_independent.
+
+Theorem prefix_free_sound : forall sv, prefix_freeb sv = true <-> PrefixFree sv.
+Proof. exact prefix_freeb_spec. Qed.
+Print Assumptions prefix_free_sound.
+
+(** Special ids and special tokens are inverse to each other; special ids start at the offset. *)
+Theorem special_ids_inverse : forall off sv t i,
+  NoDup sv ->
+  (sp_id off sv t = Some i <-> sp_tok off sv i = Some t)
+  /\ (sp_id off sv t = Some i -> off <= i < off + N.of_nat (length sv)).
+Proof.
+  intros off sv t i Hnd. split; [split|].
+  - intros H. apply sp_id_tok in H. tauto.
+  - apply sp_tok_id. exact Hnd.
+  - intros H. apply sp_id_tok in H. tauto.
+Qed.
+Print Assumptions special_ids_inverse.
+
+Theorem special_vocab_nodup : forall tokens, NoDup (uniq tokens) /\ forall t, In t (uniq tokens) <-> In t tokens.
+Proof. intros tokens. split; [apply uniq_NoDup|intros t; apply uniq_In]. Qed.
+Print Assumptions special_vocab_nodup.
+
+(** Byte tokenisation = prefix ids ++ body ++ suffix ids; with parsing off the body is exactly the
+    UTF-8 bytes of the text; with parsing on it is the concatenation over the scan of the UTF-8 bytes
+    of each regular segment and the single special id (>= 256) of each special segment. *)
+Theorem byte_tokenize_shape : forall tokens padto pad prefix suffix b s ign,
+  byte_base tokens padto pad prefix suffix = Some b ->
+  ids_of b prefix (b_pre b) /\ ids_of b suffix (b_suf b) /\ b_off b = 256 /\
+  exists body, byte_tokenize b s ign = Some (b_pre b ++ body ++ b_suf b)
+    /\ (ign = true -> body = utf8s s)
+    /\ (ign = false -> exists ls, Forall2 (seg_ids_rel b) (scan (b_sv b) s 0) ls /\ body = concat ls).
+Proof. exact byte_tokenize_shape_l. Qed.
+Print Assumptions byte_tokenize_shape.
+
+(** Decoding with special tokens kept: the whole id sequence gives prefix spellings ++ text ++ suffix
+    spellings, the ids between prefix and suffix give exactly the text. *)
+Theorem byte_roundtrip : forall tokens padto pad prefix suffix b s ign,
+  byte_base tokens padto pad prefix suffix = Some b ->
+  Forall (fun t => t <> []) (b_sv b) -> Forall (fun t => scalars t = true) (b_sv b) -> scalars s = true ->
+  exists ids, byte_tokenize b s ign = Some ids
+    /\ byte_decode b ids false = Some (concat prefix ++ s ++ concat suffix)
+    /\ byte_decode b (middle b ids) false = Some s.
+Proof. exact byte_roundtrip_l. Qed.
+Print Assumptions byte_roundtrip.
+
+(** Character tokenisation: exactly one id per character (cluster) of every regular segment and one per
+    special segment, plus prefix and suffix ids; never an error. With parsing off [n_chars] is the
+    number of clusters of the text ([char_len_ign]). *)
+Theorem char_len : forall A tokens unk pad prefix suffix b g s ign os,
+  char_base A tokens unk pad prefix suffix = Some b ->
+  exists ids, char_tokenize b A unk g s ign os = Some ids /\
+    length ids = (length prefix + n_chars g (split_input (b_sv b) s ign) os + length suffix)%nat.
+Proof. exact char_len_l. Qed.
+Print Assumptions char_len.
+
+Theorem char_len_ign : forall g sv s os,
+  n_chars g (split_input sv s true) os = length (clusters_of g s (hd [] os)).
+Proof. intros. cbn. apply Nat.add_0_r. Qed.
+Print Assumptions char_len_ign.
+
+(** The unknown id exists, is a special id, and is the id of every character that is not a single
+    code point of the alphabet; a single code point of the alphabet gets its index. *)
+Theorem char_unk : forall A tokens unk pad prefix suffix b g s os,
+  char_base A tokens unk pad prefix suffix = Some b ->
+  exists u, sp_id (b_off b) (b_sv b) unk = Some u /\ N.of_nat (length A) <= u
+    /\ char_body b A unk g s true os = Some (map (char_id A u) (clusters_of g s (hd [] os)))
+    /\ (forall c, (forall x, c = [x] -> ~ In x A) -> char_id A u c = u)
+    /\ (forall x i, NoDup A -> nth_error A i = Some x -> char_id A u [x] = N.of_nat i).
+Proof.
+  intros A tokens unk pad prefix suffix b g s os Hb.
+  apply char_base_spec in Hb as (_ & _ & _ & u & Hu & Hge).
+  exists u. split; [exact Hu|]. split; [exact Hge|]. split; [apply char_body_ign; exact Hu|].
+  split; [apply char_id_out|apply char_id_in].
+Qed.
+Print Assumptions char_unk.
+
+(** Round trip of every text over the alphabet (every cluster a single code point of [A]); the
+    segmentation oracle only has to concatenate to the text ([clusters_ok], automatic in code-point mode). *)
+Theorem char_roundtrip : forall A tokens unk pad prefix suffix b g s ign os,
+  char_base A tokens unk pad prefix suffix = Some b ->
+  (ign = false -> Forall (fun t => t <> []) (b_sv b)) ->
+  clusters_ok g (split_input (b_sv b) s ign) os ->
+  over_alphabet A g (split_input (b_sv b) s ign) os = true ->
+  exists ids, char_tokenize b A unk g s ign os = Some ids
+    /\ char_decode b A ids false = Some (concat prefix ++ s ++ concat suffix)
+    /\ char_decode b A (middle b ids) false = Some s.
+Proof. exact char_roundtrip_l. Qed.
+Print Assumptions char_roundtrip.
+
+Theorem clusters_ok_code_points : forall segs os, clusters_ok false segs os.
+Proof. exact clusters_ok_cp. Qed.
+Print Assumptions clusters_ok_code_points.
+
+Theorem clusters_ok_graphemes : forall segs os, oracle_okb segs os = true -> clusters_ok true segs os.
+Proof. exact clusters_ok_oracle. Qed.
+Print Assumptions clusters_ok_graphemes.
+
+(** The executable statement evaluated on every implementation output holds of the model's own
+    output, for every input (its domain and oracle guards are part of [check_C01]). *)
+Theorem check_run : forall v, check_C01 v (run_C01 v) = true.
+Proof. exact check_run_l. Qed.
+Print Assumptions check_run.
+
+(** Non-vacuity: a default byte tokenizer with prefix <bos> and suffix <eos>, text "a<pad>ä". *)
+Example byte_witness :
+  let toks := [[60;117;110;107;62];[60;98;111;115;62];[60;101;111;115;62];[60;112;97;100;62]] in
+  exists b, byte_base toks None [60;112;97;100;62] [[60;98;111;115;62]] [[60;101;111;115;62]] = Some b
+    /\ forallb nonemptyb (b_sv b) = true /\ forallb scalars (b_sv b) = true
+    /\ byte_tokenize b [97;60;112;97;100;62;228] false = Some [257;97;259;195;164;258]
+    /\ byte_decode b [257;97;259;195;164;258] false
+       = Some ([60;98;111;115;62] ++ [97;60;112;97;100;62;228] ++ [60;101;111;115;62]).
+Proof. cbv zeta. eexists. split; [vm_compute; reflexivity|]. vm_compute. repeat split. Qed.
+
+(** Non-vacuity: prefix-free default tokens; an overlapping pair is not. *)
+Example prefix_free_witness :
+  prefix_freeb [[60;117;110;107;62];[60;98;111;115;62];[60;112;97;100;62]] = true
+  /\ prefix_freeb [[60;97;62];[60;97;62;60;98;62]] = false.
+Proof. vm_compute. split; reflexivity. Qed.
+
+(** Non-vacuity: character tokenizer over alphabet "ab", text "ab<pad>b" parsed, round trip premises hold. *)
+Example char_witness :
+  let A := [97;98] in let toks := [[60;112;97;100;62]] in let unk := [60;117;62] in
+  exists b, char_base A toks unk [60;112;97;100;62] [] [] = Some b
+    /\ over_alphabet A false (split_input (b_sv b) [97;98;60;112;97;100;62;98] false) [] = true
+    /\ char_tokenize b A unk false [97;98;60;112;97;100;62;98] false [] = Some [0;1;2;1]
+    /\ char_tokenize b A unk false [97;99] true [] = Some [0;3].
+Proof. cbv zeta. eexists. split; [vm_compute; reflexivity|]. vm_compute. repeat split. Qed.
